@@ -70,7 +70,15 @@ def verdicts(lex: Module, udl_start: set, max_len: int = 4, qual: str = "LexerTo
     cfg = CFG(fn)
     params = [a.arg for a in fn.args.args]
 
+    _fetch_memo: Dict[int, bool] = {}
+
     def is_fetch(c: ast.Call) -> bool:
+        k = id(c)
+        if k not in _fetch_memo:
+            _fetch_memo[k] = _is_fetch(c)
+        return _fetch_memo[k]
+
+    def _is_fetch(c: ast.Call) -> bool:
         ch = attr_chain(c.func)
         if ch is None:
             return False
